@@ -49,9 +49,13 @@
 #define DL_CTL(dl) (DL_BASE(dl) && DL_HASH_T(dl) && DR_NAMED(dl) && ((dl)->tgt_check == NULL || DR_IS_TGT((dl)->tgt_check)))
 /* positional part (C05): while a chunk is being filled, the descriptor stands at the next byte of its
  * extent, the running hash has been fed exactly the bytes written so far, and the chunk is not valid */
-#define DL_STATE(dl) ((dl)->tgt_check == NULL ? (dl)->write_in_chunk == 0 : \
-    ((dl)->tgt_check->valid != 1 && (dl)->write_in_chunk <= (dl)->tgt_check->comp_length && ((dl)->write_in_chunk == 0 || (dl)->zck->check_chunk_hash.ctx != NULL) && \
-     ((dl)->zck->check_chunk_hash.ctx == NULL || (DL_POS(dl) == SV_LO(dl) + (g_off_t)((dl)->tgt_check->comp_length - (dl)->write_in_chunk) && (!DL_WATCHED(dl) || g_hu_total == (dl)->tgt_check->comp_length - (dl)->write_in_chunk)))))
+/* NOTE (CBMC): the chunk being filled is reached through the ghost NAMES (g_drK->src), never through dl->tgt_check:
+ * where this predicate is an ASSUMED postcondition, dl->tgt_check has just been havocked and a dereference through
+ * it reads a phantom object (silently so when pointer checks are off) instead of the named chunk. */
+#define DL_STATE_T(dl, t) ((t)->valid != 1 && (dl)->write_in_chunk <= (t)->comp_length && ((dl)->write_in_chunk == 0 || (dl)->zck->check_chunk_hash.ctx != NULL) && \
+     ((dl)->zck->check_chunk_hash.ctx == NULL || (DL_POS(dl) == EXT_LO((dl)->zck, t) + (g_off_t)((t)->comp_length - (dl)->write_in_chunk) && (!DL_WATCHED(dl) || g_hu_total == (t)->comp_length - (dl)->write_in_chunk))))
+#define DL_STATE_N(dl, r) (!DR_ABSENT(r) && (dl)->tgt_check == (r)->src && DL_STATE_T(dl, (r)->src))
+#define DL_STATE(dl) ((dl)->tgt_check == NULL ? (dl)->write_in_chunk == 0 : (DL_STATE_N(dl, g_dr1) || DL_STATE_N(dl, g_dr2) || DL_STATE_N(dl, g_dr3)))
 #define DL_STATE_OR_ERR(dl) ((dl)->zck->error_state > 0 || DL_STATE(dl))
 #define DL_INV(dl) (DL_SHAPE(dl) && DL_CTL(dl) && DL_STATE_OR_ERR(dl))
 /* C05 confinement, call-site form: bytes are handed to dl_write only while the descriptor stands inside the
